@@ -137,8 +137,15 @@ def build_class(s, kinds):
         if "policy" in s:
             cls = cls.using(policy={"strict": "strict", "subset": "subset", "duck": "duck", "off": None}[s["policy"]])
     elif t == "list":
-        cls = flatland.List.of(build_class(s["member"], kinds)).using(
-            prune_empty=s["prune"], maximum_set_flat_members=s["max"])
+        if s.get("max_default") or s["max"] is None:
+            # no explicit ceiling: the CLASS DEFAULT of maximum_set_flat_members applies in the real code.  The
+            # schema still says "max": DOC_LIST_CEILING for every model / oracle that reads it (`resolve_ceilings`
+            # fills it in for the `"max": null` spelling) — the documented default, pinned against the source by
+            # Proofs.ClassTable.list_ceiling_default.
+            cls = flatland.List.of(build_class(s["member"], kinds)).using(prune_empty=s["prune"])
+        else:
+            cls = flatland.List.of(build_class(s["member"], kinds)).using(
+                prune_empty=s["prune"], maximum_set_flat_members=s["max"])
         if used:
             cls = cls.named("zzparent")
             _use(cls, None, [("zzparent_0", "x"), ("zzparent_1_zz", "y")])
@@ -344,6 +351,32 @@ def rand_name(rng, sep, used):
     return "f%d" % i
 
 
+# the documented default of List.maximum_set_flat_members (docs/source/schema/containers; the class attribute is pinned
+# to this value by Proofs.ClassTable.list_ceiling_default / assumedListCeiling)
+DOC_LIST_CEILING = 1024
+
+
+def _default_ceiling(s):
+    """a List schema generated with "max": "default" carries NO explicit ceiling: `build_class` leaves
+    maximum_set_flat_members at the class default; "max" keeps the documented number so that every reader of the
+    schema (models, oracles, the Lean parsers) sees the ceiling that is supposed to apply"""
+    if s["max"] == "default":
+        s["max"] = DOC_LIST_CEILING
+        s["max_default"] = True
+    return s
+
+
+def resolve_ceilings(s):
+    """copy of the schema with the `"max": null` spelling of "no explicit ceiling" turned into the marked form"""
+    import copy
+    s = copy.deepcopy(s)
+    for x in walk_schema(s):
+        if x.get("t") == "list" and x.get("max") is None:
+            x["max"] = DOC_LIST_CEILING
+            x["max_default"] = True
+    return s
+
+
 def gen_schema(rng, sep, depth, kinds, root=True, named=None, allow_unsafe=False):
     """Random schema JSON; appends needed kinds to `kinds` (list of kind configs)."""
     def kind_index(kind):
@@ -375,8 +408,8 @@ def gen_schema(rng, sep, depth, kinds, root=True, named=None, allow_unsafe=False
             return {"t": "dict", "name": name, "opt": rng.random() < 0.2, "mode": mode, "fields": fields}
         if r < 0.75:
             mname = None if rng.random() < 0.5 else rand_name(rng, sep, set())
-            return {"t": "list", "name": name, "opt": rng.random() < 0.2, "prune": rng.random() < 0.5,
-                    "max": rng.choice([1024, 1024, 3, 2, 1, 0, 5]), "member": node(d - 1, mname, True)}
+            return _default_ceiling({"t": "list", "name": name, "opt": rng.random() < 0.2, "prune": rng.random() < 0.5,
+                    "max": rng.choice([1024, "default", 3, 2, 1, 0, 5]), "member": node(d - 1, mname, True)})
         if r < 0.87:
             mname = None if rng.random() < 0.5 else rand_name(rng, sep, set())
             return {"t": "array", "name": name, "opt": rng.random() < 0.2, "prune": rng.random() < 0.6,
